@@ -106,3 +106,18 @@ Theorem render_capture_completion_order_irrelevant :
     is_perm arr (length items) -> is_perm arr' (length items) ->
     render_capture pool_size items arr split = render_capture pool_size items arr' split'.
 Proof. exact render_capture_order_independent. Qed.
+
+(* ---- termination of the forced shutdown (shutdown(force=True) after an exception) ---- *)
+
+(* _consume_queue empties the task queue with non-blocking gets: whatever the workers take in between
+   (any interleaving), after at most 2q+1 of its own steps it is done - the call terminates. *)
+Theorem forced_shutdown_drain_terminates :
+  forall (q : nat) (pc : bool) (sched : list dstep),
+    2 * q + (if pc then 2 else 1) <= count_consumer sched -> drain_run false q pc sched = DDone.
+Proof. exact drain_terminates_gen. Qed.
+
+(* with a blocking get there is a schedule (a worker takes the last task between empty() and get())
+   on which the consumer blocks for ever *)
+Theorem forced_shutdown_blocking_get_refuted :
+  drain_run true 1 false [DConsumer; DWorkerTake; DConsumer] = DStuck.
+Proof. exact drain_blocking_stuck. Qed.
